@@ -14,6 +14,11 @@ out = {
         "path": "/verif/mc",
         "serves_properties": [p["id"] for p in props if p["id"] in checks],
         "kind_free_text": "hand-written explicit-state / bounded-exhaustive explorer (Python) that executes /repo's working tree on every enumerated case, operation sequence, fault placement and environment answer, and compares each step with a pure-Python reference model",
+    }, {
+        "name": "tlc-dsu",
+        "path": "/verif/tla",
+        "serves_properties": ["C18"],
+        "kind_free_text": "TLA+ model of the disjoint-set structure (tla/DSU.tla) checked by TLC 1.8.0 (all reachable states, invariants TypeOK / Inv / RankBound); mc/tlc.py loads the dumped labelled state graph and mc/props/c18.py replays every model transition against the real DisjointSetUnion (space dsu-tlc-model-conformance)",
     }],
     "checks": [],
     "notes": "All checks: ./check <ID> <quick|thorough>; replay: ./check <ID> --replay <file>. See DESIGN.md.",
